@@ -1,12 +1,12 @@
 package main
 
 import (
-	"runtime/debug"
 	"flag"
 	"fmt"
 	"os"
 	"path/filepath"
 	"runtime"
+	"runtime/debug"
 	"strings"
 	"time"
 )
@@ -208,4 +208,3 @@ func trunc(s string, n int) string {
 	}
 	return s
 }
-
